@@ -1,9 +1,9 @@
 (** C06 — bit-string read/write primitives behave like an ideal bit list.
     Statements only; every proof is [exact <lemma>] into Proofs/. *)
 From Coq Require Import List NArith ZArith Arith Lia Bool.
-From Tongo Require Import Lib.Bits Lib.Res Model.BitString
+From Tongo Require Import Lib.Bits Lib.Res Model.BitString Model.BitStringD
   Proofs.BitStringW Proofs.BitStringR Proofs.BitStringR2 Proofs.BitStringSeq
-  Proofs.MinBits Proofs.Fift.
+  Proofs.MinBits Proofs.Fift Proofs.BitStringD Proofs.C06History.
 Import ListNotations.
 
 (** Any sequence of in-domain writes that fits, followed by the matching reads,
@@ -129,6 +129,142 @@ Theorem C06_fift_roundtrip :
   forall l : bits, let '(ds, u) := to_fift l in from_fift ds u = Some l.
 Proof. exact fift_roundtrip. Qed.
 Print Assumptions C06_fift_roundtrip.
+
+(** ** Bit strings derived from other bit strings (stale bits past [len])
+
+    [Inv] constrains lengths only: NOTHING is assumed about the buffer bits at
+    positions >= len.  That matters, because such bits really occur: the
+    byte-aligned fast path of ReadBits(n) copies whole bytes, so for
+    n mod 8 <> 0 its result carries the source's following bits after its
+    length (Model/BitStringD.v is byte-faithful about the returned buffer;
+    [C06_read_bits_result_keeps_stale_bits] is the concrete instance).  All the
+    writer theorems above are therefore already statements "for every garbage
+    past len"; the next one says so explicitly: the state is given as its ideal
+    content [pre] followed by ARBITRARY [junk]. *)
+Theorem C06_writers_ignore_stale_bits :
+  forall (pre junk l : bits) (c r : nat),
+  (length (pre ++ junk) mod 8 = 0)%nat ->
+  (length pre + length l <= c)%nat -> (c <= length (pre ++ junk))%nat ->
+  (r <= length pre)%nat ->
+  exists s', write_bits l (mkbs (pre ++ junk) c (length pre) r) = (s', Ok tt) /\
+    abs s' = pre ++ l /\ Inv s' /\ len s' = (length pre + length l)%nat.
+Proof. exact write_bits_any_junk. Qed.
+Print Assumptions C06_writers_ignore_stale_bits.
+
+(** every composite writer is [write_bits] of its encoding (so the theorem
+    above covers WriteUint/Int/BigUint/BigInt/Bytes/BitString/Unary/LimUint) *)
+Theorem C06_every_writer_is_write_bits :
+  forall tab, debruijn_ok tab = true ->
+  forall it s, item_ok it -> write_item tab it s = write_bits (enc_item it) s.
+Proof. exact write_item_enc. Qed.
+
+(** The BitString RETURNED by ReadBits(n): its ideal content is the n bits
+    read, it satisfies [Inv] (so every theorem of this file applies to it,
+    whatever its last byte holds after position n), capacity n, cursor 0. *)
+Theorem C06_read_bits_result :
+  forall n s, Inv s ->
+  if (rcur s + n <=? len s)%nat then
+    exists r, read_bits_bs n s = (adv s n, Ok r) /\
+      abs r = rd s n /\ Inv r /\ len r = n /\ cap r = n /\ rcur r = 0%nat
+  else read_bits_bs n s = (s, Err ENotEnoughBits).
+Proof. exact read_bits_bs_spec. Qed.
+Print Assumptions C06_read_bits_result.
+
+Theorem C06_read_bits_result_keeps_stale_bits :
+  let src := fst (write_bits (bits_of 16 49151) (new_bs 16)) in   (* 0xBFFF *)
+  exists s' r, read_bits_bs 1 src = (s', Ok r) /\
+    abs r = [true] /\ buf r = [true; false; true; true; true; true; true; true].
+Proof. exact read_bits_bs_keeps_stale_bits. Qed.
+
+Theorem C06_read_remaining_result :
+  forall s, Inv s ->
+  exists r, read_remaining_bs s = (set_rcur s (len s), r) /\
+    abs r = skipn (rcur s) (abs s) /\ Inv r /\ len r = (len s - rcur s)%nat /\
+    cap r = len r /\ rcur r = 0%nat.
+Proof. exact read_remaining_bs_spec. Qed.
+
+Theorem C06_copy : forall s, Inv s -> Inv (copy_bs s) /\ abs (copy_bs s) = abs s.
+Proof. exact copy_bs_spec. Qed.
+
+Theorem C06_grow :
+  forall k s, Inv s -> Inv (grow k s) /\ abs (grow k s) = abs s /\
+    cap (grow k s) = (cap s + k)%nat /\ len (grow k s) = len s.
+Proof. exact grow_spec. Qed.
+
+(** Append never fails and appends exactly the ideal content of its argument —
+    for every buffer content of the receiver beyond its length. *)
+Theorem C06_append :
+  forall b s, Inv s -> Inv b ->
+  exists s', append_bs b s = (s', Ok tt) /\ abs s' = abs s ++ abs b /\ Inv s' /\
+    rcur s' = rcur s /\ len s' = (len s + len b)%nat.
+Proof. exact append_bs_spec. Qed.
+Print Assumptions C06_append.
+
+(** ToFiftHex as the Go code computes it (hex of the buffer; Copy + Grow +
+    completion tag + zero padding when len mod 4 <> 0) is the ideal text form of
+    the ideal bit list; with [C06_fift_roundtrip]: the text converts back to the
+    same bits, whatever the buffer holds past len. *)
+Theorem C06_to_fift_on_buffer :
+  forall s, Inv s -> to_fift_bs s = Ok (to_fift (abs s)).
+Proof. exact to_fift_bs_spec. Qed.
+Print Assumptions C06_to_fift_on_buffer.
+
+(** GetTopUppedArray (the bytes serialised / hashed for a cell) *)
+Theorem C06_top_upped :
+  forall s, Inv s ->
+  let tu := (8 * nbytes (len s) - len s)%nat in
+  top_upped s =
+    if (tu =? 0)%nat then Ok (bytes_of_bits (nbytes (len s)) (abs s))
+    else if (len s + tu <=? cap s)%nat
+         then Ok (bytes_of_bits (nbytes (len s)) (abs s ++ true :: zeros (tu - 1)))
+         else Err EOverflow.
+Proof. exact top_upped_spec. Qed.
+
+(** What makes the above true is that WriteBit(false) CLEARS its bit.  With a
+    WriteBit whose false branch only checks the range ([write_bit_noclear],
+    Proofs/C06History.v) the statement is false, with concrete witnesses
+    (source 0xBFFF, aligned ReadBits(1) resp. ReadBits(3)); it stays true only
+    for all-zero junk, which is why fresh buffers do not show the difference. *)
+Theorem C06_writers_ignore_stale_bits_noclear_refuted :
+  ~ (forall (pre junk l : bits) (c r : nat),
+       (length (pre ++ junk) mod 8 = 0)%nat ->
+       (length pre + length l <= c)%nat -> (c <= length (pre ++ junk))%nat ->
+       (r <= length pre)%nat ->
+       exists s', write_bits_g write_bit_noclear l (mkbs (pre ++ junk) c (length pre) r) = (s', Ok tt) /\
+         abs s' = pre ++ l).
+Proof. exact writers_any_junk_noclear_refuted. Qed.
+
+Theorem C06_append_after_aligned_read_bits_noclear_refuted :
+  exists src n zs s' r,
+    Inv src /\ Inv zs /\
+    read_bits_bs_g write_bit_noclear n src = (s', Ok r) /\ Inv r /\
+    exists r', append_g write_bit_noclear zs r = (r', Ok tt) /\
+      abs r' <> abs r ++ abs zs /\
+      abs r' = [true; false; true; true; true; true].
+Proof. exact append_after_aligned_read_bits_noclear_refuted. Qed.
+
+Theorem C06_to_fift_noclear_refuted :
+  exists s' r,
+    read_bits_bs_g write_bit_noclear 1 src_BFFF = (s', Ok r) /\ Inv r /\
+    abs r = [true] /\
+    to_fift_bs_g write_bit_noclear r = Ok ([15%N], true) /\
+    to_fift (abs r) = ([12%N], true) /\
+    from_fift [15%N] true = Some [true; true; true].
+Proof. exact to_fift_noclear_refuted. Qed.
+
+Theorem C06_top_upped_noclear_refuted :
+  exists s' r,
+    read_bits_bs_g write_bit_noclear 1 src_BFFF = (s', Ok r) /\
+    top_upped_g write_bit_noclear (grow 7 r) = Ok [255%N] /\
+    top_upped (grow 7 r) = Ok [192%N].
+Proof. exact top_upped_noclear_refuted. Qed.
+
+Theorem C06_noclear_unobservable_on_zero_junk :
+  forall (pre l : bits) k c r,
+  (length l <= k)%nat -> (length pre + length l <= c)%nat ->
+  exists s', write_bits_g write_bit_noclear l (mkbs (pre ++ zeros k) c (length pre) r) = (s', Ok tt) /\
+    abs s' = pre ++ l.
+Proof. exact writers_zero_junk_noclear. Qed.
 
 (** Non-vacuity: a concrete non-trivial state and item list meet the premises. *)
 Example C06_premises_satisfiable :
